@@ -269,6 +269,34 @@ pub fn run(tier: Tier) -> i32 {
 
 pub fn replay(case: &J) -> Verdict {
     let mut l = Local::new();
+    if case["stage"] == "two-units-in-one-document" || case["stage"] == "distinct-units-compare-equal" {
+        let (a, b) = (case["id"].as_str().unwrap_or(""), case["other"].as_str().unwrap_or(""));
+        let d = db();
+        if case["stage"] == "distinct-units-compare-equal" {
+            let (ua, ub) = (get_unit(a), get_unit(b));
+            return match (ua, ub) {
+                (Some(ua), Some(ub)) if ua.ids != ub.ids && ua == ub => Err((format!("distinct-units-compare-equal:{}", id_class(ua.ids.last().unwrap())), format!("{:?} == {:?}", ua.ids, ub.ids))),
+                _ => Ok(()),
+            };
+        }
+        let t = format!("[5{a},7{b},{{x:1{a} y:2{b}}}]");
+        let (ia, ib) = (d.by_id.get(a).copied(), d.by_id.get(b).copied());
+        let ok = match (guarded(|| from_str(&t)), ia, ib) {
+            (Ok(Ok(Value::List(l))), Some(ia), Some(ib)) if l.len() == 3 => {
+                let unit_is = |v: &Value, want: usize| matches!(v, Value::Number(n) if n.unit.map_or(false, |u| u.ids == d.units[want].ids));
+                let inner = match &l[2] {
+                    Value::Dict(dd) => dd.get("x").map_or(false, |v| unit_is(v, ia)) && dd.get("y").map_or(false, |v| unit_is(v, ib)),
+                    _ => false,
+                };
+                unit_is(&l[0], ia) && unit_is(&l[1], ib) && inner
+            }
+            _ => false,
+        };
+        return if ok { Ok(()) } else { Err((format!("two-units-in-one-document:{}", id_class(b)), t)) };
+    }
+    if case["history_pair"].is_string() {
+        return Err(("history-changes-output:unit-lookup".into(), "re-run ./check C15 quick".into()));
+    }
     if let Some(i) = case["unit_index"].as_u64() {
         check_unit(i as usize, &mut l);
         let stage = case["stage"].as_str().unwrap_or("");
